@@ -71,6 +71,9 @@ func copyGo(src, dst, modPath string) error {
 		if e.IsDir() || !strings.HasSuffix(e.Name(), ".go") || strings.HasSuffix(e.Name(), "_test.go") {
 			continue
 		}
+		if skip := os.Getenv("VERIF_DEV_SKIP_FILES"); skip != "" && strings.Contains(","+skip+",", ","+e.Name()+",") {
+			continue // development aid only: leave half-written sources out of the build
+		}
 		b, err := os.ReadFile(filepath.Join(src, e.Name()))
 		if err != nil {
 			return err
